@@ -35,11 +35,18 @@ pub fn innocent_io_probe() -> String {
         Ok(p) => p,
         Err(e) => return format!("pair failed: {e:?}"),
     };
+    // (the harness is told that something it cannot see is under way)
+    if let Some(c) = crate::ctrl::global() {
+        c.ext_pending(1);
+    }
     let w = std::thread::spawn(move || {
         std::thread::sleep(Duration::from_millis(2));
         let mut b = b;
         let _ = b.write_all(&[42]);
         std::thread::sleep(Duration::from_millis(2));
+        if let Some(c) = crate::ctrl::global() {
+            c.ext_pending(-1);
+        }
     });
     let mut buf = [0u8; 4];
     let r = a.read(&mut buf);
